@@ -11,6 +11,28 @@ COMMON_NOTE = ("Trusted base: Coq 8.16.1 kernel + vm_compute (no native_compute,
                "modelled, not verified. ")
 
 CLAIMED = {
+ "C01": dict(
+  text="Theorems over the reals (Coq Reals) about _evals_sort REGENERATED from soprano/nmr/utils.py on every run: for all real triples and the four "
+       "conventions the output is the input rearranged by the reported permutation and satisfies the defining chain (all tie patterns); the ordered "
+       "spectrum is canonical when keys are tie-free (re-order = construct; (evals,evecs) = matrix construction under the eigh contract); for every "
+       "orthonormal eigen-frame the re-ordered frame with the cross-product third axis is orthonormal, right-handed and reconstructs the same "
+       "symmetric matrix (nsatz); symm(M+K)=symm(M). The frame model is hand-written and tied by exact correspondence on signed-permutation matrices "
+       "over the three classes x 4 orders x {construct, re-order, pair}; a numeric property oracle runs on 9 random streams and per-atom lists.",
+  note="eigh is an oracle with a stated contract (hypothesis of from_matrix_spec / from_pair_equiv, sampled each run). Float ties between keys "
+       "that are distinct reals are not modelled. Known finding C01-F01 (ties) is proved as findings/C01_reorder_ties_refuted.v and replayed each run.",
+  technique="Coq proof (Reals, lra/nsatz) over a model regenerated from source (py2v) + exact differential correspondence",
+  design="§8 C01"),
+ "C02": dict(
+  text="Theorems over the reals about the GENERATED _anisotropy/_asymmetry/_span/_skew composed with the generated sort: defining identities, "
+       "0<=eta<=1 and -1<=skew<=1 with the zero guards, span>=0, invariance of every descriptor under any rearrangement of the spectrum "
+       "(anisotropies under tie-free Haeberlen keys), shift law (+cI), scale law (k<>0, negative included: span by |k|, skew by sign k), trace laws, "
+       "and decoders showing that IUPAC/Mehring, Maryland/Herzfeld-Berger and Haeberlen tuples determine the same principal values. Tied to the "
+       "code by regeneration plus correspondence of the public attributes of the three classes on exact spectra, and a metamorphic oracle "
+       "(4 orders, antisymmetric part, rotations, shifts, scales) on the real classes.",
+  note="'span scales by k' is read as |k| (a span is non-negative). Rotation invariance of the spectrum itself is linear algebra assumed, "
+       "sampled numerically. Known finding C02-F02 (eta = 1 tie: sign of the anisotropy) proved as findings/C02_eta1_sign_refuted.v.",
+  technique="Coq proof (Reals, lra/nra/field) over a model regenerated from source (py2v) + differential correspondence + metamorphic oracle",
+  design="§8 C02"),
  "C20": dict(
   text="Theorems about the decision skeleton of save_tree/load_tree REGENERATED from collection.py on every run (py2v tree_skel): "
        "an existing target is rmtree'd only where the documented table permits, a declined/forbidden overwrite does nothing, "
